@@ -164,6 +164,9 @@ def _s10(name: str, code: int, *layouts: Layout, cite: str = "", recognised: boo
     return Service(name, code, 0x3FF, tuple(layouts), cite or _AL, recognised)
 
 
+# low six code bits of the 10-bit services that live inside the 0111 (A_ADC_Response) block
+_ADC_BLOCK_10BIT = frozenset((0x08, 0x09, 0x0A)) | frozenset(range(0x0C, 0x17)) | frozenset(range(0x3B, 0x3F))
+
 SERVICES: tuple[Service, ...] = (
     # ---- 4-bit APCI services (low six bits of octet 1 = data or reserved) ----------
     _s4("GroupValueRead", 0x000, L(F(R, 6)), cite="A_GroupValue_Read: no data, 6 bits 0"),
@@ -175,7 +178,9 @@ SERVICES: tuple[Service, ...] = (
     _s4("IndividualAddressRead", 0x100, L(F(R, 6))),
     _s4("IndividualAddressResponse", 0x140, L(F(R, 6))),
     _s4("ADCRead", 0x180, L(F("channel", 6), F("count", 8))),
-    _s4("ADCResponse", 0x1C0, L(F("channel", 6), F("count", 8), F("value", 16))),
+    # channel numbers whose code 0x1C0|n is allocated to a 10-bit service cannot be expressed
+    _s4("ADCResponse", 0x1C0, L(F("channel", 6, [n for n in range(64) if n not in _ADC_BLOCK_10BIT]), F("count", 8), F("value", 16)),
+        cite="A_ADC_Response: 0111 + 6 bit channel; 0x1C8..0x1D6 and 0x1FB..0x1FE are separate 10-bit services"),
     _s4("MemoryRead", 0x200, L(F("count", 6), F("address", 16))),
     _s4("MemoryResponse", 0x240, L(F("count", 6), F("address", 16), tail=("dep", "count", 1))),
     _s4("MemoryWrite", 0x280, L(F("count", 6), F("address", 16), tail=("dep", "count", 1))),
@@ -436,7 +441,10 @@ def selftest() -> None:
     assert canonical(0x380) and not canonical(0x382) and canonical(0x3A1) and not canonical(0x3A3)
     assert canonical(0x085) and canonical(0x3D5)
     assert lookup(0x3CD).name == "RouterStatusRead" and not RECOGNISED[0x3CD] and NAME_OF[0x3CD] is None
-    assert sum(RECOGNISED) == 12 * 64 - 0 + (32 - 16) + 46 - 3 + 0, sum(RECOGNISED)
+    # 13 four-bit blocks (the ADC_Response block is recognised throughout: ADC or a 10-bit
+    # code), 48 A_Restart codes (16 "response to basic restart" undefined), 9 user codes,
+    # 39 escape codes with a PDU definition
+    assert sum(RECOGNISED) == 13 * 64 + 48 + 9 + 39, sum(RECOGNISED)
     # lengths
     assert BY_NAME["GroupValueRead"].valid_lengths() == {2}
     assert BY_NAME["GroupValueWrite"].valid_lengths() == set(range(2, 256))
@@ -481,3 +489,4 @@ def selftest() -> None:
             w = witness(s, v)
             assert len(w) in s.valid_lengths(), (s.name, v, w.hex())
             assert lookup(apci_of(w)) is s
+    assert {c & 0x3F for c in _EXACT if c & 0x3C0 == 0x1C0} == set(_ADC_BLOCK_10BIT)
